@@ -1196,7 +1196,7 @@ var (
 	c17Times     = [][2]string{{"09:00", "17:00"}, {"00:00", "24:00"}, {"23:59", "24:00"}, {"00:00", "00:01"}, {"08:30", "12:15"}}
 	c17Weekdays  = []string{"monday:friday", "saturday", "sunday", "sunday:saturday", "wednesday:wednesday", "Tuesday"}
 	c17Days      = []string{"1:5", "-3:-1", "-1", "31", "1:31", "15", "-31:-1", "1:-1", "10:-5"}
-	c17Months    = []string{"january:march", "12", "5:7", "december", "1:12", "June", "may:may"}
+	c17Months    = []string{"january:march", "12", "5:7", "december", "1:12", "June", "may:may", "13", "0:2", "11:13", "0", "14:20"}
 	c17Years     = []string{"2020:2025", "2030", "1999:2001"}
 	c17Locations = []string{"UTC", "Local", "Europe/Paris", "America/New_York", "Australia/Sydney", "Asia/Kolkata"}
 )
